@@ -161,6 +161,12 @@ class TableRow(IdentifiableElement):
     def _build_odxlinks(self) -> Dict[OdxLinkId, Any]:
         result = {self.odx_id: self}
 
+        if self.admin_data is not None:
+            result.update(self.admin_data._build_odxlinks())
+
+        if self.audience is not None:
+            result.update(self.audience._build_odxlinks())
+
         for sdg in self.sdgs:
             result.update(sdg._build_odxlinks())
 
@@ -178,6 +184,12 @@ class TableRow(IdentifiableElement):
             self._table = odxlinks.resolve(self.table_ref, Table)
         else:
             self._table = odxlinks.resolve(self.table_ref)
+
+        if self.admin_data is not None:
+            self.admin_data._resolve_odxlinks(odxlinks)
+
+        if self.audience is not None:
+            self.audience._resolve_odxlinks(odxlinks)
 
         for sdg in self.sdgs:
             sdg._resolve_odxlinks(odxlinks)
@@ -217,6 +229,12 @@ class TableRow(IdentifiableElement):
         if self.dop_snref is not None:
             self._dop = resolve_snref(self.dop_snref, ddd_spec.data_object_props,
                                       DataObjectProperty)
+
+        if self.admin_data is not None:
+            self.admin_data._resolve_snrefs(context)
+
+        if self.audience is not None:
+            self.audience._resolve_snrefs(context)
 
         for sdg in self.sdgs:
             sdg._resolve_snrefs(context)
